@@ -335,3 +335,24 @@ func preamble(w *harness.Wire, lmtp bool, mail bool, rcpts int) string {
 	}
 	return ""
 }
+
+// finishFail turns a failed Finish into a verdict: a state-based deadlock of
+// the server is a violation (whatever the property expects next can never
+// happen); an expired watchdog is inconclusive.
+func finishFail(w *harness.Wire) Verdict {
+	if w != nil && w.Deadlock != "" {
+		d := w.Deadlock
+		if len(d) > 2500 {
+			d = d[:2500]
+		}
+		return failf("deadlock", "the server is deadlocked: every goroutine serving the connection is parked on a channel or lock, none waits for input:\n%s", d)
+	}
+	return Verdict{Inconclusive: "watchdog while finishing"}
+}
+
+func trimTo(s string, n int) string {
+	if len(s) > n {
+		return s[:n] + "..."
+	}
+	return s
+}
